@@ -323,17 +323,11 @@ func (m *Model) Apply(e string) string {
 	case "K":
 		i, _ := strconv.Atoi(p[1])
 		m.noteBudget(i)
-		n := 0
-		for _, tk := range vsched.Tickers() {
-			if tk.D.Seconds() == 2 && !tk.Stopped {
-				if n == i {
-					if tk.Fire() {
-						return "fired"
-					}
-					return "not-fired"
-				}
-				n++
+		if tk := m.nodes[i].RetryTicker; tk != nil && !tk.Stopped {
+			if tk.Fire() {
+				return "fired"
 			}
+			return "not-fired"
 		}
 		return "no-ticker"
 	}
